@@ -32,8 +32,18 @@ def gen(rng, tier):
         n_it = rng.randint(1, 6)
         if rng.random() < 0.12:
             n_it = rng.randint(10, 12)    # two-digit iteration numbers in the generated names
+        prefix = rng.choice(("cg_unroll", "cg_unroll", "t"))
+        if rng.random() < 0.15:
+            # a circuit that was produced by an earlier unrolling (or just happens to use such names): one of its nodes
+            # is called like an io node this unrolling is going to create, <io>_<prefix>_<step>
+            io = ref.inputs(net) + ref.outputs(net)
+            victims = [x for x in net["nodes"] if x not in ks and x not in vs]
+            if io and victims:
+                new = f"{rng.choice(io)}_{prefix}_{rng.randrange(n_it)}"
+                if new not in net["nodes"]:
+                    net = G.rename(net, {rng.choice(victims): new})
         return {"kind": "unroll", "net": net, "n": n_it, "state_io": dict(zip(ks, vs)),
-                "prefix": rng.choice(("cg_unroll", "cg_unroll", "t")), "peer": {"seed": rng.getrandbits(32)}}
+                "prefix": prefix, "peer": {"seed": rng.getrandbits(32)}}
     pins_in = rng.choice((["clk", "d"], ["clk", "rst", "d"], ["d"]))
     tname = rng.choice(("dff", "ff"))
     nflops = rng.randint(1, 4)
@@ -70,6 +80,19 @@ def gen(rng, tier):
                 mp[n] = new
         net = G.rename(net, mp)
         nodes = net["nodes"]
+    if rng.random() < 0.2:
+        # instance names and net names are separate namespaces: a flop may be called like a primary input or output
+        # (a registered output `r` driven by flop instance `r`)
+        ionames = [n for n, v in nodes.items() if "." not in n and (v[0] == "input" or v[2]) and not n.endswith("_in")]
+        if ionames:
+            old_i, new_i = rng.choice(insts), rng.choice(ionames)
+            if new_i not in net["bbs"] and not any(n.startswith(new_i + ".") or n.startswith(new_i + "_") for n in nodes):
+                def rn(x):
+                    return new_i + x[len(old_i):] if x.startswith(old_i + ".") else x
+                net = {"name": net["name"], "bbs": {(new_i if k == old_i else k): v for k, v in net["bbs"].items()},
+                       "nodes": {rn(n): [t, [rn(f) for f in fi], o] for n, (t, fi, o) in nodes.items()}}
+                nodes = net["nodes"]
+                insts = list(net["bbs"])
     iv = rng.choice((None, None, "0", "1", "dict"))
     if iv == "dict":
         iv = {i: rng.choice(("0", "1")) for i in insts if rng.random() < 0.7}
